@@ -2,21 +2,33 @@
   Model of the tool side of `operon_ai/organelles/mitochondria.py` and of the LLM tool loop of
   `operon_ai/organelles/nucleus.py :: Nucleus.transcribe_with_tools` (C03).
 
-  * registry = Python dict `self.tools` (name ↦ tool object; re-registration replaces the object);
-  * a tool object carries `required_capabilities` / `capabilities` attributes (each possibly absent or empty)
-    and an opaque body that returns or raises when executed;
-  * `allowed : Option (List Cap)` is `allowed_capabilities` (None = unrestricted);
+  * registry = Python dict `self.tools` (name ↦ tool object; re-registration replaces the object, whatever callable
+    the old and the new object wrap: `engulf_tool`, `register_function` and the constructor's `tools=` all end in
+    `self.tools[tool.name] = tool`);
+  * a tool object carries `required_capabilities` / `capabilities` attributes (each possibly absent or empty, and
+    re-assignable on the live object: `redeclare`) and an opaque body that returns or raises when executed; several
+    tool objects may wrap the same body (`body` is the identity of the callable, not of the registration);
+  * a capability tag is any hashable value (members of `core/types.py :: Capability`, plain strings, members of a
+    plug-in's own Enum); the code only uses set operations on them, so a tag is a `Nat` here;
+  * `allowed` is the public attribute `allowed_capabilities` (None = unrestricted), set by the constructor and
+    re-assignable afterwards (`setCeiling`); every execution records the ceiling in force;
   * whether a capability-subset test dominates `tool.execute` on each of the two code paths is NOT assumed:
     it is the pair of booleans `Guards`, regenerated from the source by the extractor (`Operon.Gen.MitoCaps`);
+  * the tool object is fetched from the registry ONCE per request; the capability test and `execute` use that
+    object.  Between the test and `execute` the arguments are evaluated (`_compute_node` on the expression pathway,
+    `**call.arguments` on the structured path), and that evaluation may re-enter the public registration API
+    (`during : List RegOp`): the registry changes, the object that runs is still the vetted one;
+  * the provider of the tool loop is an adversary: it answers each round with any list of calls and may use the
+    registration API before it answers (`Round.before`);
   * the ROS latch, the length guard and the pathway auto-detection of `metabolize` are inputs (`pre`):
     the theorems hold whatever they decide.
 
-  Not modelled: argument values (evaluation of arguments is an input outcome: it succeeds or raises, and by C01
-  executes nothing), console output, timing/efficiency, statistics.
+  Not modelled: argument values (evaluation of arguments is an input: the registry operations it performs, and
+  whether it then succeeds or raises; by C01 it executes no tool), console output, timing/efficiency, statistics.
 -/
 namespace Operon.MitoTools
 
-abbrev Cap := Nat      -- index into core/types.py :: Capability (order of definition)
+abbrev Cap := Nat      -- 0..5: index into core/types.py :: Capability (order of definition); 6..: extension tags
 
 structure Tool where
   body : Nat                       -- identity of the tool body (side-effect counter in the harness)
@@ -62,10 +74,33 @@ def Registry.set (r : Registry) (n : String) (t : Tool) : Registry :=
 /-- `del self.tools[name]` / `self.tools.pop(name, None)` (the registry is a public dict) -/
 def Registry.erase (r : Registry) (n : String) : Registry := r.filter (fun p => !(p.1 == n))
 
+/-- `tool.required_capabilities = …` / `tool.capabilities = …` (or `del`) on the live object registered under `n` -/
+def Registry.redeclare (r : Registry) (n : String) (req caps : Option (List Cap)) : Registry :=
+  r.map (fun p => if p.1 == n then (p.1, { p.2 with req := req, caps := caps }) else p)
+
+/-- registry operations of the public API; they may also happen while a call is in flight -/
+inductive RegOp where
+  | register (n : String) (t : Tool)
+  | unregister (n : String)
+  deriving Repr, DecidableEq
+
+def Registry.apply (r : Registry) : RegOp → Registry
+  | .register n t => r.set n t
+  | .unregister n => r.erase n
+
+def Registry.applyAll (r : Registry) (ops : List RegOp) : Registry := ops.foldl Registry.apply r
+
+/-- one execution of a tool body, with the ceiling in force when it was vetted and run -/
+structure Ev where
+  tool : Tool
+  ceiling : Option (List Cap)
+  deriving Repr, DecidableEq
+
 structure St where
   reg : Registry := []
-  events : List Tool := []         -- tool bodies that ran, oldest first
-  rosErrors : Nat := 0             -- number of `_ros_accumulated += 0.1`
+  allowed : Option (List Cap) := none    -- `self.allowed_capabilities`
+  events : List Ev := []                 -- tool bodies that ran, oldest first
+  rosErrors : Nat := 0                   -- number of `_ros_accumulated += 0.1`
   deriving Repr
 
 inductive Res where
@@ -80,18 +115,23 @@ inductive Callee where
   | notCall                        -- expression is not a call (or does not parse)
   deriving Repr, DecidableEq
 
-/-- what `metabolize` decides before dispatch -/
+/-- what `metabolize` decides before dispatch; on another pathway the arguments of the call are evaluated only when
+    the callee is an entry of the function table (`sqrt(...)`) -/
 inductive Pre where
-  | tooLong | rosLatched | oxidative | otherPathway
+  | tooLong | rosLatched | oxidative | otherPathway (argsEvaluated : Bool)
   deriving Repr, DecidableEq
 
 /-- run the body of a tool: it is executed (event) and returns or raises -/
 def runBody (s : St) (t : Tool) : St × Res :=
-  if t.raises then ({ s with events := s.events ++ [t], rosErrors := s.rosErrors + 1 }, .failure "ToolRaised")
-  else ({ s with events := s.events ++ [t] }, .success)
+  if t.raises then
+    ({ s with events := s.events ++ [⟨t, s.allowed⟩], rosErrors := s.rosErrors + 1 }, .failure "ToolRaised")
+  else ({ s with events := s.events ++ [⟨t, s.allowed⟩] }, .success)
+
+/-- argument evaluation re-entering the registration API -/
+def during (s : St) (ops : List RegOp) : St := { s with reg := s.reg.applyAll ops }
 
 /-- `_oxidative_phosphorylation` inside `metabolize`'s blanket handler -/
-def oxidative (g : Guards) (allowed : Option (List Cap)) (s : St) (callee : Callee) (argsOk : Bool) : St × Res :=
+def oxidative (g : Guards) (s : St) (callee : Callee) (argsOk : Bool) (ops : List RegOp) : St × Res :=
   match callee with
   | .notCall => ({ s with rosErrors := s.rosErrors + 1 }, .failure "ValueError")
   | .notName => ({ s with rosErrors := s.rosErrors + 1 }, .failure "ValueError")
@@ -99,67 +139,82 @@ def oxidative (g : Guards) (allowed : Option (List Cap)) (s : St) (callee : Call
     match s.reg.lookup n with
     | none => ({ s with rosErrors := s.rosErrors + 1 }, .failure "ValueError")
     | some t =>
-      if g.oxidative && !permitted allowed t then
+      if g.oxidative && !permitted s.allowed t then
         ({ s with rosErrors := s.rosErrors + 1 }, .failure "PermissionError")
-      else if !argsOk then ({ s with rosErrors := s.rosErrors + 1 }, .failure "ArgError")
-      else runBody s t
+      else if !argsOk then ({ during s ops with rosErrors := s.rosErrors + 1 }, .failure "ArgError")
+      else runBody (during s ops) t
 
 /-- `metabolize(expr, pathway)` as far as tools are concerned: only the oxidative pathway reaches a tool -/
-def metabolize (g : Guards) (allowed : Option (List Cap)) (s : St) (pre : Pre) (callee : Callee) (argsOk : Bool) :
+def metabolize (g : Guards) (s : St) (pre : Pre) (callee : Callee) (argsOk : Bool) (ops : List RegOp) :
     St × Res :=
   match pre with
   | .tooLong => (s, .failure "TooLong")
   | .rosLatched => (s, .failure "RosLatched")
-  | .otherPathway => (s, .failure "NotToolPathway")     -- result of other pathways is C01/C02's business
-  | .oxidative => oxidative g allowed s callee argsOk
+  | .otherPathway true => (during s ops, .failure "NotToolPathway")
+  | .otherPathway false => (s, .failure "NotToolPathway")     -- result of other pathways is C01/C02's business
+  | .oxidative => oxidative g s callee argsOk ops
 
-/-- `execute_tool_call(ToolCall(name, arguments))` -/
-def executeToolCall (g : Guards) (allowed : Option (List Cap)) (s : St) (n : String) : St × Res :=
+/-- `execute_tool_call(ToolCall(name, arguments))`; `ops` = what evaluating `**call.arguments` does to the registry -/
+def executeToolCall (g : Guards) (s : St) (n : String) (ops : List RegOp) : St × Res :=
   match s.reg.lookup n with
   | none => (s, .failure "UnknownTool")
   | some t =>
-    if g.toolCall && !permitted allowed t then
+    if g.toolCall && !permitted s.allowed t then
       ({ s with rosErrors := s.rosErrors + 1 }, .failure "PermissionError")
-    else runBody s t
+    else runBody (during s ops) t
 
 /-- one round of the tool loop: every requested call is forwarded to `execute_tool_call` -/
-def loopRound (g : Guards) (allowed : Option (List Cap)) : St → List String → St × List Res
+def loopRound (g : Guards) : St → List (String × List RegOp) → St × List Res
   | s, [] => (s, [])
-  | s, n :: ns =>
-    let (s1, r) := executeToolCall g allowed s n
-    let (s2, rs) := loopRound g allowed s1 ns
+  | s, c :: cs =>
+    let (s1, r) := executeToolCall g s c.1 c.2
+    let (s2, rs) := loopRound g s1 cs
     (s2, r :: rs)
 
+/-- one answer of the provider: what it does to the registry before answering, and the calls it requests -/
+structure Round where
+  before : List RegOp := []
+  calls : List (String × List RegOp) := []
+  deriving Repr
+
 /-- `transcribe_with_tools`: the provider is an adversary answering each round with a list of tool calls
-    (empty list = a plain completion, which ends the loop); at most `maxIter` rounds are executed. -/
-def toolLoop (g : Guards) (allowed : Option (List Cap)) : Nat → St → List (List String) → St × List (List Res)
-  | 0, s, _ => (s, [])
-  | _, s, [] => (s, [])
-  | _ + 1, s, [] :: _ => (s, [])
-  | k + 1, s, (c :: cs) :: rounds =>
-    let (s1, rs) := loopRound g allowed s (c :: cs)
-    let (s2, rss) := toolLoop g allowed k s1 rounds
-    (s2, rs :: rss)
+    (empty list = a plain completion, which ends the loop; so does `auto_execute=False`); at most `maxIter` rounds. -/
+def toolLoop (g : Guards) : Nat → Bool → St → List Round → St × List (List Res)
+  | 0, _, s, _ => (s, [])
+  | _ + 1, _, s, [] => (s, [])
+  | k + 1, auto, s, r :: rounds =>
+    let s0 := during s r.before
+    if r.calls.isEmpty || !auto then (s0, [])
+    else
+      let (s1, rs) := loopRound g s0 r.calls
+      let (s2, rss) := toolLoop g k auto s1 rounds
+      (s2, rs :: rss)
 
 inductive Op where
   | register (n : String) (t : Tool)
   | unregister (n : String)
-  | metabolize (pre : Pre) (callee : Callee) (argsOk : Bool)
-  | call (n : String)
-  | loop (maxIter : Nat) (autoExecute : Bool) (rounds : List (List String))
+  | redeclare (n : String) (req caps : Option (List Cap))
+  | setCeiling (al : Option (List Cap))
+  | metabolize (pre : Pre) (callee : Callee) (argsOk : Bool) (ops : List RegOp)
+  | call (n : String) (ops : List RegOp)
+  | loop (maxIter : Nat) (autoExecute : Bool) (rounds : List Round)
   deriving Repr
 
-/-- `transcribe_with_tools` returns before the loop when no tool is registered, and never executes with
-    `auto_execute=False` -/
-def step (g : Guards) (allowed : Option (List Cap)) (s : St) : Op → St
+/-- `transcribe_with_tools` returns before the loop (and before the provider's tool interface is used) when no tool
+    is registered -/
+def step (g : Guards) (s : St) : Op → St
   | .register n t => { s with reg := s.reg.set n t }
   | .unregister n => { s with reg := s.reg.erase n }
-  | .metabolize pre callee argsOk => (metabolize g allowed s pre callee argsOk).1
-  | .call n => (executeToolCall g allowed s n).1
-  | .loop k auto rounds =>
-    if s.reg.isEmpty || !auto then s else (toolLoop g allowed k s rounds).1
+  | .redeclare n req caps => { s with reg := s.reg.redeclare n req caps }
+  | .setCeiling al => { s with allowed := al }
+  | .metabolize pre callee argsOk ops => (metabolize g s pre callee argsOk ops).1
+  | .call n ops => (executeToolCall g s n ops).1
+  | .loop k auto rounds => if s.reg.isEmpty then s else (toolLoop g k auto s rounds).1
 
-def run (g : Guards) (allowed : Option (List Cap)) (s : St) (ops : List Op) : St :=
-  ops.foldl (step g allowed) s
+def run (g : Guards) (s : St) (ops : List Op) : St :=
+  ops.foldl (step g) s
+
+/-- an engine as constructed: `Mitochondria(allowed_capabilities=allowed)` -/
+def init (allowed : Option (List Cap)) : St := { allowed := allowed }
 
 end Operon.MitoTools
